@@ -41,12 +41,30 @@ type compiler struct {
 }
 
 type loopSignal struct {
-	ctl exitBlockStatment
+	ctl    exitBlockStatment
+	parent *loopSignal // the signal of the evaluator around a helper's block
 }
 
-// signal returns the loop signal of the execution (Template.Exec makes it).
-func (c *compiler) signal() *loopSignal {
-	return c.loopControl
+// root is the signal Template.Exec made: it stands for the execution.
+func (s *loopSignal) root() *loopSignal {
+	for s.parent != nil {
+		s = s.parent
+	}
+	return s
+}
+
+// take removes and returns a break or continue raised by a helper's block
+// while the current statement was evaluated. A stored block that is
+// replayed inside another helper's block leaves its signal with the
+// evaluator that defined it, further out: the whole chain is looked at.
+func (s *loopSignal) take() exitBlockStatment {
+	for ; s != nil; s = s.parent {
+		if ctl := s.ctl; ctl != nil {
+			s.ctl = nil
+			return ctl
+		}
+	}
+	return nil
 }
 
 func (c *compiler) compile() (string, error) {
@@ -1362,8 +1380,7 @@ func (c *compiler) evalBlockStatement(node *ast.BlockStatement) (interface{}, er
 			return nil, err
 		}
 
-		if ctl := c.signal().ctl; ctl != nil {
-			c.signal().ctl = nil
+		if ctl := c.loopControl.take(); ctl != nil {
 			if _, exits := i.(exitBlockStatment); !exits {
 				// the statement's own value is what the iteration keeps
 				var kept []interface{}
